@@ -4362,7 +4362,12 @@ class NameCheckVisitor(node_visitor.ReplacingNodeVisitor):
                 self.add_constraint((node, 2), constraint)
                 self._generic_visit_list(node.body)
 
-        if always_entered and all(LEAVES_LOOP not in scope for scope in loop_scopes):
+        # loop_scopes is None outside functions (module and class bodies track no definitions)
+        if (
+            always_entered
+            and loop_scopes is not None
+            and all(LEAVES_LOOP not in scope for scope in loop_scopes)
+        ):
             # This means the code following the loop is unreachable.
             self._set_name_in_scope(LEAVES_SCOPE, node, AnyValue(AnySource.marker))
 
